@@ -285,6 +285,10 @@ class Ctx:
         return f
 
     def elapsed(self):
+        """seconds since the property's own run started (build and audit time do not eat the exploration budget)"""
+        return time.time() - getattr(self, "t_run", self.t0)
+
+    def wall(self):
         return time.time() - self.t0
 
     def budget_left(self, total):
@@ -371,7 +375,7 @@ def write_evidence(ctx: Ctx, level, obligations, discharged, checker_cmd, violat
         "level": level,
         "coverage": cov,
         "assumptions": list(ctx.assumptions) + list(extra_assumptions),
-        "wall_s": round(ctx.elapsed(), 2),
+        "wall_s": round(ctx.wall(), 2),
         "violations": int(violations),
     }
     path = os.path.join(OUT, "evidence", f"{ctx.pid}.json")
@@ -465,10 +469,15 @@ def run_check(pid, tier, seed, prop, replay=None):
     if ok_drv:
         ctx.drv = LeanDriver(drv_exe)
     try:
-        if replay is not None:
-            prop.replay(ctx, replay)
-        else:
-            prop.run(ctx)
+        ctx.t_run = time.time()
+        try:
+            if replay is not None:
+                prop.replay(ctx, replay)
+            else:
+                prop.run(ctx)
+        except CaseTimeout as e:   # a stray wall-clock guard: not a verdict about the code
+            ctx.notes.append(f"a per-case wall-clock guard fired outside its handler ({e}); exploration stopped early")
+            ctx.count("stray-case-timeout")
     finally:
         if ctx.drv is not None:
             ctx.drv.close()
@@ -527,7 +536,7 @@ def run_check(pid, tier, seed, prop, replay=None):
         print(l)
     print(f"[{pid}] tier={tier} seed={seed} obligations={obligations} discharged={discharged} "
           f"evaluations={ctx.evaluations} distinct_nontrivial={len(ctx.nontrivial)} findings={len(ctx.findings)} "
-          f"violations={nviol} wall={ctx.elapsed():.1f}s")
+          f"violations={nviol} wall={ctx.wall():.1f}s")
     return exit_code
 
 
@@ -535,7 +544,7 @@ def run_check(pid, tier, seed, prop, replay=None):
 # wall-clock guard for a single case (a hang is an infrastructure event, never a violation)
 # ----------------------------------------------------------------------------------------
 
-class CaseTimeout(Exception):
+class CaseTimeout(BaseException):
     pass
 
 
